@@ -34,3 +34,4 @@ def run(ctx, R):
     jitcross.rule_emask(ctx, R, 'rv64')
     genreset.rule_gen_reset(ctx, R, 'rv64')
     rvhsem.rule_hsem(ctx, R)
+    rvhsem.rule_ss_hsem(ctx, R)
